@@ -237,25 +237,27 @@ def rule_M5(ctx: Ctx) -> None:
         need = set() if always_full else {"visited_cells"}
         ctx.judge(_gen(ctx, name), need <= keys, {"keys_written": sorted(keys), "literal_fully_connected": lits.get("fully_connected"), "needs": sorted(need)}, exp,
                   "get_connected_component raises ValueError (or silently treats the maze as fully connected) for mazes of this generator")
-    # reader structure: all nodes only if meta is None or flag true; else visited cells; raise when missing
-    ifs = [n for n in rd.node.body if isinstance(n, ast.If)]
-    ok = None
-    slot = {}
-    if ifs:
-        first = ifs[0]
-        t = N.boolean_nf(first.test)
-        want = N.boolean_nf(X.expr_of("self.generation_meta is None or self.generation_meta.get('fully_connected', False)"))
-        slot["condition"] = N.nf_str(t)
-        then_ret = [s for s in first.body if isinstance(s, ast.Return)]
-        rest = list(first.orelse) + rd.node.body[rd.node.body.index(first) + 1:]
-        rest_mod = ast.Module(body=rest, type_ignores=[])
-        else_has_raise = any(isinstance(s, ast.Raise) for s in ast.walk(rest_mod))
-        else_ret = [s for s in ast.walk(rest_mod) if isinstance(s, ast.Return)]
-        ok = N.nf_key(t) == N.nf_key(want) and len(then_ret) == 1 and X.U(then_ret[0].value) == "self.get_nodes()" and else_has_raise \
-            and len(else_ret) == 1 and "visited_cells" in X.U(else_ret[0].value)
-        if N.nf_key(t) != N.nf_key(want):
-            # default of the flag lookup matters: `.get('fully_connected', True)` would treat unflagged mazes as connected
-            ok = False if "fully_connected" in N.nf_str(t) else None
+    # reader structure as a decision table over (metadata absent, flag set, visited cells missing): invariant under guard clauses, De Morgan, early returns
+    from sa import dtable as DT
+
+    atoms = {"meta_absent": ["self.generation_meta is None"],
+             "flag_set": ["self.generation_meta.get('fully_connected', False)", "self.generation_meta.get('fully_connected', False) is True",
+                          "bool(self.generation_meta.get('fully_connected', False))"],
+             "visited_missing": ["self.generation_meta.get('visited_cells', None) is None", "self.generation_meta.get('visited_cells') is None",
+                                 "'visited_cells' not in self.generation_meta"]}
+    rows = DT.table(rd.node, atoms)
+
+    def expected(a):
+        if a["meta_absent"] or a["flag_set"]:
+            return lambda o: o[0] == "return" and X.same_expr(o[1], "self.get_nodes()")
+        if a["visited_missing"]:
+            return lambda o: o == ("raise", "ValueError")
+        return lambda o: o[0] == "return" and X.same_expr(o[1], "np.array(list(self.generation_meta.get('visited_cells', None)))", "np.array(list(self.generation_meta.get('visited_cells')))",
+                                                           "np.array(list(self.generation_meta['visited_cells']))")
+    ok, rep = DT.judge_table(rows, expected)
+    slot = {"table": rep}
+    if ok is None and any("fully_connected" in str(r["outcome"][1]) for r in rows if r["outcome"][0] == "unknown"):
+        ok = False  # located slot: the flag is consulted in a way that is not `get('fully_connected', False)` (e.g. another default)
     ctx.judge(rd, ok, slot, "all cells only when metadata is absent or flags fully_connected (default False); otherwise the recorded visited cells; ValueError when they are missing",
               "mazes that are not fully connected get endpoints drawn from all cells")
 
